@@ -2,4 +2,13 @@ SPEC_PART = dict(
     props_file="C14_tdigest",
     legs=[dict(family="tdigest", focus="malformed", oracles=["no_panic"], profiles=["debug", "release"],
                mask=[15, 21], n_quick=400, n_thorough=5000, panic_is_violation=True)],
-    trusted=[], assumptions=[], covers="tdigest: TBD")
+    trusted=["tdigest: the harness grants the configuration-sized reservation of make() (48 * (2k + fudge) bytes for the k the image "
+             "announces) on top of 64 * len + 1 MiB when it judges the allocation of a parse"],
+    assumptions=["tdigest: using an accepted digest whose total weight is within a few units of u64::MAX overflows the weight counter on "
+                 "the next update + compression (known finding tdigest-C14-weight-capacity); follow-up updates/merges are exercised for "
+                 "totals below 2^62"],
+    covers="tdigest: the modelled readers (both flavours + reference formats) never reach a panic site on ANY byte string, accept only "
+           "well-shaped states (k >= 10, finite values, weights >= 1, checked totals, items present in the input) and request at most "
+           "2 bytes per input byte (Props/C14_tdigest.v); tie: mutated images of every variant (bit/byte flips, boundary counts, k and "
+           "flags, truncation, extension, random bytes, NaN/inf/zero/huge fields, wrong flavour) -> Ok/Err class equal to the model's, no "
+           "panic, no allocation beyond 64*len + 1 MiB + c0(k); every accepted digest is queried, dumped, round-tripped, updated and merged")
